@@ -57,6 +57,8 @@ def val : F32 → Rat | .fin q _ => q | _ => 0
 
 @[simp] theorem val_fin (q : Rat) (nz : Bool) : (F32.fin q nz).val = q := rfl
 @[simp] theorem isFin_fin (q : Rat) (nz : Bool) : (F32.fin q nz).isFin = true := rfl
+@[simp] theorem isFin_nan : F32.nan.isFin = false := rfl
+@[simp] theorem isFin_inf (s : Bool) : (F32.inf s).isFin = false := rfl
 
 /-- canonical form: the zero flag is forced to false for non-zero values -/
 def mk (q : Rat) (nz : Bool) : F32 := if q == 0 then .fin 0 nz else .fin q false
